@@ -24,14 +24,16 @@ class Monitor:
         self.cfg = cfg
         v = self.version = cfg["version"]
         s = self.s = Session(v)
+        self.nodes = tuple(cfg.get("nodes", NODES))
+        self.children = tuple(cfg.get("children", CHILDREN))
         self.keys = [tuple(k) for k in cfg["keys"]]
         self.values = cfg["values"]
-        for n in NODES:
+        for n in self.nodes:
             s.line(f"{n};255;0;0;17;{v}")
-            for c in CHILDREN:
+            for c in self.children:
                 s.line(f"{n};{c};0;0;3;")
-        self.sleeping = {n: False for n in NODES}
-        for n, sl in zip(NODES, cfg["sleep"]):
+        self.sleeping = {n: False for n in self.nodes}
+        for n, sl in zip(self.nodes, cfg["sleep"]):
             if sl:
                 wl = wake_line(v, n)
                 if wl is not None:
@@ -51,18 +53,19 @@ class Monitor:
         for k in self.keys:
             for val in self.values:
                 evs.append(["send", list(k), val])
-        for n in NODES:
+        n0, c0 = self.nodes[0], self.children[0]
+        for n in self.nodes:
             wl = wake_line(v, n)
             if wl:
                 evs.append(["wake", n])
-        for n in NODES:
-            evs.append(["line", f"{n};3;1;0;2;x"])  # a set from the node (non-wake traffic)
-        evs.append(["line", "1;255;3;0;0;0"])  # battery report
+        for n in self.nodes:
+            evs.append(["line", f"{n};{c0};1;0;2;x"])  # a set from the node (non-wake traffic)
+        evs.append(["line", f"{n0};255;3;0;0;0"])  # battery report
         if v == "2.2":
-            evs.append(["line", "1;255;3;0;22;0"])  # heartbeat response is not a wake in 2.2
+            evs.append(["line", f"{n0};255;3;0;22;0"])  # heartbeat response is not a wake in 2.2
         if not R.is2x(v):
-            evs.append(["line", "1;255;3;0;22;0"])  # type does not exist in 1.x
-        for n in NODES:
+            evs.append(["line", f"{n0};255;3;0;22;0"])  # type does not exist in 1.x
+        for n in self.nodes:
             evs.append(["present", n])
         return evs
 
@@ -165,6 +168,9 @@ def configs(ctx: core.Ctx) -> list:
         # in 2.x the awake configurations are reachable via 'present'; starting asleep reaches all
         for sl in sleeps:
             cfgs.append({"version": v, "keys": keys, "values": ["a", "b"], "sleep": sl})
+    # boundary ids: highest assignable node id 254, the gateway's own id 0, child ids 0 and 254
+    for v in (["2.2"] if ctx.quick else ["1.5", "2.0", "2.2"]):
+        cfgs.append({"version": v, "nodes": [254, 0], "children": [0, 254], "keys": [[254, 0, 2], [254, 254, 2], [0, 0, 2]], "values": ["a", "b"], "sleep": [True, True]})
     return cfgs
 
 
